@@ -2,7 +2,7 @@
     full dendrogram restricted to each side (property C07). *)
 From Coq Require Import Permutation Sorted Lia.
 From Coq Require FinFun.
-From SKN Require Import Base.Util Model.Dendrogram Model.Cuts Model.Hierarchy Proofs.CutsProofs Proofs.HierarchyBase.
+From SKN Require Import Base.Util Model.Dendrogram Model.Cuts Model.Hierarchy Proofs.DendroBase Proofs.HierarchyBase.
 Set Warnings "-notation-overridden".
 
 (** * Association lists (complements) *)
